@@ -773,6 +773,10 @@ pub fn run_cluster(sc: &Scenario, prop: &str) -> Result<RunResult, String> {
         }
     }
     out.fault_n("replayed_message_rejected_by_rpc", sh.replay_errors);
+    let cut = sh.ops.iter().filter(|o| o.result.as_deref() == Some("cancelled")).count() as u64;
+    if cut > 0 {
+        out.probe_n("operations_cut_short_by_their_caller", cut);
+    }
     for (k, v) in datacake_crdt::verif::take_probes() {
         out.probe_n(k, v);
     }
